@@ -247,6 +247,29 @@ func (g *Gen) evalIdent(ctx *specCtx, name string) Val {
 		}
 		g.unsupported("unknown identifier " + name + " in callee contract")
 	}
+	// inside a helper that was carved out of the function under contract the inherited clauses were written for that
+	// function: its parameters and locals come first (a helper's receiver `l` is not the root's `l`)
+	if len(g.outerScopes) > 0 && !ctx.entryNames {
+		sc := g.outerScopes[0]
+		b0, k0 := name, 1
+		if i := strings.Index(name, "#"); i > 0 {
+			b0 = name[:i]
+			k0, _ = strconv.Atoi(name[i+1:])
+		}
+		if as := sc.localNames[b0]; len(as) >= k0 {
+			a := as[k0-1]
+			if !sc.escaping[a] {
+				if v, ok := ctx.st.cells[a]; ok {
+					return v
+				}
+			} else if pr, ok := ctx.st.regs[a].(PtrV); ok {
+				return g.loadHeap(ctx.st, pr)
+			}
+		}
+		if v, ok := sc.paramVals[name]; ok {
+			return v
+		}
+	}
 	if g.freeVarNames[name] {
 		// captured variable: the closure holds a pointer to it; contracts name the variable itself
 		if pv, ok := g.paramVals[name].(PtrV); ok {
